@@ -7,6 +7,7 @@ mod gen;
 mod prng;
 mod ser;
 mod termprops;
+mod unicode;
 mod util;
 mod wf;
 
@@ -19,6 +20,10 @@ fn main() {
         std::process::exit(2);
     }
     let prop = args[1].clone();
+    if prop == "dump-unicode" {
+        unicode::dump(&args[2]).expect("dump unicode");
+        return;
+    }
     let mut o = Opts { seed: 1, n: 400, outdir: "/verif/_build/run".into(), thorough: false, shards: 16, replay: None };
     let mut i = 2;
     while i < args.len() {
